@@ -22,7 +22,7 @@ use std::fmt;
 /// }
 ///
 /// // later
-/// assert_eq!(sampler.reservoir().iter().sum::<i64>(), 5);
+/// assert_eq!(sampler.reservoir().iter().sum::<i64>(), 1);
 /// ```
 ///
 /// # Applications
@@ -110,11 +110,15 @@ where
         if self.i < self.k {
             // initial fill-up
             self.reservoir.push(obj)
-        } else if self.i < t {
+        } else if self.i <= t {
             // normal reservoir sampling
-            let j: usize = self.rng.gen_range(0..self.i);
+            let j: usize = self.rng.gen_range(0..=self.i);
             if j < self.k {
                 self.reservoir[j] = obj;
+            }
+            if self.i == t {
+                // last element of this phase => calculate first skip
+                self.skip_until = self.i + 1 + self.gap();
             }
         } else if self.i >= self.skip_until {
             // fast skipping approximation
@@ -122,13 +126,18 @@ where
             self.reservoir[j] = obj;
 
             // calculate next skip
-            let p = (self.k as f64) / ((self.i + 1) as f64);
-            let u = 1f64 - self.rng.gen_range((0.)..1.); // (0.0, 1.0]
-            let g = (u.ln() / (1. - p).ln()).floor() as usize;
-            self.skip_until = self.i + g;
+            self.skip_until = self.i + 1 + self.gap();
         }
 
         self.i += 1;
+    }
+
+    /// Number of elements to skip after the current one (geometric distribution).
+    fn gap(&mut self) -> usize {
+        // chance that the next element gets sampled
+        let p = (self.k as f64) / ((self.i + 2) as f64);
+        let u = 1f64 - self.rng.gen_range((0.)..1.); // (0.0, 1.0]
+        (u.ln() / (1. - p).ln()).floor() as usize
     }
 
     /// Checks if reservoir is empty (i.e. no data points where observed)
